@@ -6,7 +6,7 @@ from .layer_a import Engine
 
 
 def canon(case):
-    return json.dumps(case, sort_keys=True)
+    return json.dumps({k: v for k, v in case.items() if k != "_obs"}, sort_keys=True)
 
 
 def load_corpus(prop):
@@ -32,6 +32,8 @@ def run_coexec(prop, tier, seed, *, module, theorems, gen_cases, nontrivial, rul
         eng.build()
         bad, impl, model = eng.disagreements(cases)
         total += len(cases)
+        for c, mo in zip(cases, model):
+            c["_obs"] = mo          # lets non-triviality rules look at what happened
         real_bad = []
         for (i, io, mo) in bad:
             kid = known(cases[i], io, mo) if known else None
